@@ -99,7 +99,7 @@ def commit_types(lean_str, lean_list):
 
 def signature_keys(lean_str, lean_list):
     """the vocabulary of signature keys: every `HK(...)` expression in the source of dds/introspect.py (for an f-string:
-    its literal prefix), in order of first occurrence; plus the sentinels of dds_hash. `buildReturnSig_inj` splits a
+    its literal prefix), sorted; plus the sentinels of dds_hash. `buildReturnSig_inj` splits a
     signature by these prefixes: a new kind of key in the code must show up here."""
     import ast
     import inspect
@@ -117,10 +117,7 @@ def signature_keys(lean_str, lean_list):
             else:
                 k = "<dynamic>"
             keys.append((node.lineno, node.col_offset, k))
-    ordered = []
-    for (_, _, k) in sorted(keys):
-        if k not in ordered:
-            ordered.append(k)
+    ordered = sorted(set(k for (_, _, k) in keys))      # a set: where and how often a key is built does not matter
     out = ["/-- every key (or key prefix, marked `*`) of a signature pair in dds/introspect.py -/",
            "def sigKeys : List String := " + lean_list([lean_str(k) for k in ordered])]
     src = inspect.getsource(fa)
